@@ -476,7 +476,11 @@ class Parser:
         if (int_str.startswith("0") and int_str != '0'
                 and not int_str.startswith("0x")):
             int_str = "0o" + int_str[1:]
-        pyvalue = int(int_str, 0)
+        try:
+            pyvalue = int(int_str, 0)
+        except ValueError:
+            raise CDefError("invalid integer constant %r for '#define %s'"
+                            % (int_str, name))
         if neg:
             pyvalue = -pyvalue
         self._add_constants(name, pyvalue)
@@ -881,6 +885,14 @@ class Parser:
         tp.partial = True
 
     def _parse_constant(self, exprnode, partial_length_ok=False):
+        try:
+            return self._parse_constant_1(exprnode, partial_length_ok)
+        except (ArithmeticError, ValueError, MemoryError) as e:
+            # division by zero, negative or huge shift count, ...
+            raise FFIError("invalid constant expression: %s: %s"
+                           % (type(e).__name__, e))
+
+    def _parse_constant_1(self, exprnode, partial_length_ok=False):
         # for now, limited to expressions that are an immediate number
         # or positive/negative number
         if isinstance(exprnode, pycparser.c_ast.Constant):
